@@ -395,6 +395,21 @@ def check_C08(A: Analysis, tier):
         if op.kind == "unknown" and not op.anomalies:
             rd.fail(op.func, op.node, "block under a condition's mutex matches none of the claim shapes", A.p.loc(op.func, op.node))
     rules += [rd, re_, rf]
+    rg8 = Rule("C08", "C08.g", "no path of a public call reads a local variable that nothing on that path has bound: the UnboundLocalError "
+               "aborts the call in the middle of its clean-up / release sequence", floor=9)
+    seen8 = set()
+    for it in A.all_api_runs(("th",)):
+        rg8.ob()
+        rg8.inst(f"{it.entry}: {len(it.unbound)} unbound read(s)")
+        for (fq, name, line) in it.unbound:
+            if (fq, name, line) in seen8:
+                continue
+            seen8.add((fq, name, line))
+            f_ = A.p.func(fq) if A.p.has_func(fq) else None
+            rg8.fail(fq, f"{name} (line {line})", f"`{name}` is read in {fq.split('.')[-1]} on a path of {it.entry.split('.')[-1]} on which it was never assigned: "
+                     "UnboundLocalError instead of the documented outcome; what follows the read (releases, removals) is skipped",
+                     f"src/hashstore/filehashstore.py:{line}")
+    rules.append(rg8)
     return rules
 
 
